@@ -13,14 +13,14 @@ BOUNDS = {"histories": "all sequences of <= 3 operations (thorough 4) over {writ
           "outside": "longer histories; more than two keys + two foreign keys"}
 
 
-def listing(ctx, length, first, explicit_time, foreign):
+def listing(ctx, length, first, explicit_time, foreign, odd_keys=False):
     scn = ctx.new_scn()
     I = scn.s.I
     V = [scn.blob("V1"), scn.blob("V2")]
     scn.distinct(V[0], V[1])
-    keys = ["a", "b"]
+    keys = ["a", "b"] if not odd_keys else ["say \"hi\"\ttab\\back", "b"]     # keys whose JSON form needs escapes
     live = {}
-    tag0 = "C10:%s:len%d%s%s" % (scn.api, length, ":times" if explicit_time else "", ":foreign" if foreign else "")
+    tag0 = "C10:%s:len%d%s%s%s" % (scn.api, length, ":times" if explicit_time else "", ":foreign" if foreign else "", ":odd-keys" if odd_keys else "")
     extra_live = {}
     if foreign:
         bp = bucket_path_of(scn, "a")
@@ -106,4 +106,6 @@ def tasks(tier, flavours):
         for first in ((0, 2) if tier == "quick" else range(6)):
             out.append(dict(module="C10", family="listing", flavour=fl, params=dict(length=3, first=first, explicit_time=True, foreign=False)))
         out.append(dict(module="C10", family="listing", flavour=fl, params=dict(length=2, first=None if tier != "quick" else 1, explicit_time=False, foreign=True)))
+        for first in ((0, 3) if tier == "quick" else range(6)):
+            out.append(dict(module="C10", family="listing", flavour=fl, params=dict(length=2 if tier == "quick" else 3, first=first, explicit_time=False, foreign=False, odd_keys=True)))
     return out
